@@ -100,22 +100,25 @@ impl Body {
     }
 }
 
+static LONG: std::sync::atomic::AtomicBool = std::sync::atomic::AtomicBool::new(false);
+
 /// Run one body (seeded by `slot`) to completion; scheduling points only when `pt.sess` is set.
 fn run_body(b: Body, slot: u64, pt: Pt) -> Vec<u64> {
+    let long = LONG.load(std::sync::atomic::Ordering::SeqCst);
     match b {
         Body::Mh => {
             let target = PtTarget { inner: mh_target(), pt };
             let mut chain = MHMarkovChain::<f64, f64, _, _>::new(target, IsotropicGaussian::new(1.0).set_seed(100 + slot), vec![0.5, -0.5]);
             chain.rng = SmallRng::seed_from_u64(200 + slot);
-            run_chain(&mut chain, 3, 0).iter().map(|x| x.to_bits()).collect()
+            run_chain(&mut chain, if long { 5 } else { 3 }, 0).iter().map(|x| x.to_bits()).collect()
         }
         Body::Gibbs => {
             let mut chain = GibbsMarkovChain::new(PtCond { inner: DetCond::new(300 + slot), pt }, &[0.1, 0.2]);
-            run_chain(&mut chain, 2, 0).iter().map(|x| x.to_bits()).collect()
+            run_chain(&mut chain, if long { 4 } else { 2 }, 0).iter().map(|x| x.to_bits()).collect()
         }
         Body::Hmc => {
             let mut s = HMC::<f64, BF64, _>::new(PtBatch { inner: Rosenbrock2D { a: 1.0, b: 10.0 }, pt }, vec![vec![0.5, 0.5], vec![0.2, 0.1]], 0.05, 2).set_seed(400 + slot);
-            tensor_bits(&s.run(2, 0))
+            tensor_bits(&s.run(if long { 3 } else { 2 }, 0))
         }
         Body::Nuts => {
             let mut c = NUTSChain::<f64, BF64, _>::new(PtGrad { inner: GaussND::new(2, 1), pt }, vec![0.3, -0.2], 0.8).set_seed(500 + slot);
@@ -160,19 +163,19 @@ fn configs(thorough: bool) -> Vec<(Vec<Body>, usize)> {
     use Body::*;
     if thorough {
         vec![
-            (vec![Mh, Mh], 3),
-            (vec![Gibbs, Gibbs], 3),
-            (vec![Hmc, Hmc], 3),
-            (vec![Nuts, Nuts], 2),
-            (vec![Mh, Hmc], 3),
-            (vec![Mh, Nuts], 2),
-            (vec![Gibbs, Hmc], 3),
-            (vec![Hmc, Nuts], 2),
-            (vec![Mh, Gibbs], 3),
-            (vec![Gibbs, Nuts], 2),
-            (vec![Mh, Hmc, Nuts], 2),
-            (vec![Hmc, Hmc, Hmc], 2),
-            (vec![Mh, Gibbs, Hmc], 2),
+            (vec![Mh, Mh], 5),
+            (vec![Gibbs, Gibbs], 5),
+            (vec![Hmc, Hmc], 4),
+            (vec![Nuts, Nuts], 3),
+            (vec![Mh, Hmc], 4),
+            (vec![Mh, Nuts], 3),
+            (vec![Gibbs, Hmc], 4),
+            (vec![Hmc, Nuts], 3),
+            (vec![Mh, Gibbs], 4),
+            (vec![Gibbs, Nuts], 3),
+            (vec![Mh, Hmc, Nuts], 3),
+            (vec![Hmc, Hmc, Hmc], 3),
+            (vec![Mh, Gibbs, Hmc], 3),
         ]
     } else {
         vec![(vec![Mh, Mh], 2), (vec![Gibbs, Gibbs], 2), (vec![Hmc, Hmc], 2), (vec![Nuts, Nuts], 1), (vec![Mh, Hmc], 2), (vec![Hmc, Nuts], 1), (vec![Mh, Gibbs, Hmc], 1)]
@@ -200,6 +203,7 @@ fn check_exec(ctx: &Ctx, bodies: &[Body], solo: &[Vec<u64>], ex: &Exec, prefix: 
 }
 
 pub fn interleavings(ctx: &Ctx) {
+    LONG.store(ctx.tier.thorough(), std::sync::atomic::Ordering::SeqCst);
     let mut total_exec = 0u64;
     let mut total_dec = 0u64;
     let mut bounds = vec![];
@@ -226,7 +230,7 @@ pub fn interleavings(ctx: &Ctx) {
         let mut first_trace: Option<Vec<String>> = None;
         let mut distinct_traces = std::collections::HashSet::new();
         let mut n = 0u64;
-        let res = explore(bound, ctx.tier.pick(4000, 60000), |prefix| {
+        let res = explore(bound, ctx.tier.pick(4000, 400000), |prefix| {
             let ex = execute(&bodies, prefix);
             if let Some(e) = &ex.error {
                 return Err(format!("{e} (threads {names:?}, schedule {prefix:?})"));
